@@ -211,6 +211,26 @@ func (c *checker) report(ph phase, raw json.RawMessage, class string, seed uint6
 	// confirm in a fresh process before spending time on minimisation
 	first := c.rc.evalCandidatesRepeated(ph, raw, class)
 	if !first {
+		// state kept across calls (caches, pools) can make a violation depend on what the
+		// engine process evaluated before: retry with the preceding seeds as a prelude
+		for _, k := range []int{1, 2, 4, 8, 16, 32} {
+			doc, err := decodeGeneric(raw)
+			if err != nil {
+				break
+			}
+			doc["prelude"] = json.Number(strconv.Itoa(k))
+			cand := encodeGeneric(doc)
+			hit := false
+			for attempt := 0; attempt < 3 && !hit; attempt++ {
+				hit = c.rc.evalCandidatesRepeated(ph, cand, class)
+			}
+			if hit {
+				raw, first = cand, true
+				break
+			}
+		}
+	}
+	if !first {
 		die2("violation %s at seed %d did not reproduce from its replay object in a fresh process; refusing to report (replay machinery trouble)", class, seed)
 	}
 	min, note := c.rc.minimise(ph, raw, class, budget)
